@@ -106,4 +106,30 @@ def wb : MState :=
               (wbC, { value := .s .blank, formula := some (.ref wbB) })],
     ranges := [], names := [("x".toList, wbA)] }
 
+/-! ### the two spellings of an address (`Model.set_cell_value` / `get_cell_value` dispatch on the type of `address`) -/
+
+/-- a string (an address or a defined name) or an `XLCell` object carrying the address -/
+inductive Handle
+  | str (a : Addr)
+  | cell (a : Addr)
+  deriving Repr, Inhabited
+
+/-- `Model.set_cell_value(address, value)`.  A string goes through the defined names; an `XLCell` is never a key of
+    `defined_names` (its keys are strings), so its `.address` is used as it stands: the stored cell gets the value, a cell
+    that is not in the model yet is created (`XLCell(address.address, value)`, the D0402 repair). -/
+def setCellValueH (m : MState) : Handle → V → MState
+  | .str a, v => m.setCellValue a v
+  | .cell a, v =>
+    match m.cell? a with
+    | some _ => { m with cells := assocUpdate a (fun c => { c with value := v }) m.cells }
+    | none => { m with cells := m.cells ++ [(a, { value := v, formula := none })] }
+
+/-- `Model.get_cell_value(address)` with the same dispatch -/
+def getCellValueH (m : MState) : Handle → V
+  | .str a => m.getCellValue a
+  | .cell a =>
+    match m.cell? a with
+    | some c => c.value
+    | none => .s (.num (.int 0))
+
 end XlVerif.Model.C04
